@@ -406,3 +406,21 @@ Check update_clearing_delete_refuted :
     /\ lookup a (gl_peers (disconnect g1 a RPassive)) = None
     /\ lookup a (gl_peers (disconnect (set_peers g1 (update a (clear_delete p) (gl_peers g1))) a RPassive)) <> None.
 Print Assumptions update_clearing_delete_refuted.
+
+(* (25) UpdatePeer gives the neighbour the local AS that add_peer gives a neighbour configured that way, confederation identifier included (finding C16-8 repaired). *)
+Theorem update_local_asn_as_configured :
+  forall (g : global) (a : ipaddr) (u : upd) (p p' : peer) (pa : params),
+    keys_ok g ->
+    lookup a (gl_peers g) = Some p -> lookup a (gl_peers (update_peer g a u)) = Some p' ->
+    u_rs_client u = pe_rs_client p -> u_rr_client u = rr_client (pe_rr p) ->
+    pa_expected_asn pa = u_asn u -> pa_local_asn pa = u_local_asn u ->
+    pe_local_asn p' = pe_local_asn (build_peer g a pa) /\ pe_expected_asn p' = u_asn u.
+Proof. exact C16_update_local_asn_as_configured. Qed.
+Check update_local_asn_as_configured :
+  forall (g : global) (a : ipaddr) (u : upd) (p p' : peer) (pa : params),
+    keys_ok g ->
+    lookup a (gl_peers g) = Some p -> lookup a (gl_peers (update_peer g a u)) = Some p' ->
+    u_rs_client u = pe_rs_client p -> u_rr_client u = rr_client (pe_rr p) ->
+    pa_expected_asn pa = u_asn u -> pa_local_asn pa = u_local_asn u ->
+    pe_local_asn p' = pe_local_asn (build_peer g a pa) /\ pe_expected_asn p' = u_asn u.
+Print Assumptions update_local_asn_as_configured.
